@@ -580,6 +580,16 @@ class Gen:
                 other = self.pick([q for q in ps if q is not p])
                 return f'.{p.name} ?= {rhs} and .{other.name} ?= .{other.name}'
             return f'.{p.name} ?= {rhs}'
+        sl = [p for p in self.usable_ptrs(t, links=True) if not p.multi]
+        if sl and self.i(0, 7) == 0:
+            # equality on a single link (possibly to the same type)
+            p = self.pick(sl)
+            self.f('filter-link-eq')
+            tgt = p.target[1]
+            src = self.objset(tgt, env, None, max(depth - 1, 0))
+            if src == tgt:
+                src = f'detached {tgt}'
+            return f'.{p.name} = (select {src} limit 1)'
         if c <= 2 and ps:
             p = self.pick(ps)
             if p.exclusive:
